@@ -427,7 +427,7 @@ func (g *gen) randResp() string {
 	return fmt.Sprintf("b%d", 1+g.r.Intn(g.nblk))
 }
 
-func (g *gen) verifyOps(c *chainInfo, k int) {
+func (g *gen) verifyOps(c *chainInfo, k int, period int64, h0 int) {
 	for i := 0; i < k; i++ {
 		h := 1 + g.r.Intn(c.n)
 		if g.r.Intn(15) == 0 {
@@ -446,6 +446,13 @@ func (g *gen) verifyOps(c *chainInfo, k int) {
 			now = tt - int64(g.r.Intn(7)) + 1 // around the clock-drift edge
 		case 1:
 			now = c.t[c.n] + 1000000 // far outside a short trusting period
+		case 2:
+			// the expiry boundary of some possibly trusted header: t + period - 1, t + period, t + period + 1
+			hb := h0
+			if g.r.Intn(2) == 0 {
+				hb = 1 + g.r.Intn(c.n)
+			}
+			now = c.t[hb] + period + int64(g.r.Intn(3)) - 1
 		default:
 			now = c.t[c.n] + int64(g.r.Intn(2000))
 		}
@@ -527,9 +534,10 @@ func genRandom(r *rand.Rand) core.Case {
 	if r.Intn(20) == 0 {
 		hash = forked[n]
 	}
-	g.ops = append(g.ops, g.newOp(1, g.period(c), h0, hash, primary, wits))
+	per := g.period(c)
+	g.ops = append(g.ops, g.newOp(1, per, h0, hash, primary, wits))
 	g.ops = append(g.ops, fmt.Sprintf("verify h=%d now=%d order=%s", target, c.t[n]+int64(r.Intn(1000)), g.order(g.nprov)))
-	g.verifyOps(c, 2+r.Intn(4))
+	g.verifyOps(c, 2+r.Intn(4), per, h0)
 	return core.Case{Kind: "random", Ops: g.ops}
 }
 
